@@ -19,6 +19,13 @@ def families_for(tier):
     return ["ed25519", FAMILIES[1 + vlib.seed() % (len(FAMILIES) - 1)]]
 
 
+def types_for(tier):
+    """one family per KEY TYPE (ed25519, ECDSA, RSA-PSS variant by seed) - for checks that exercise the scheme dispatch"""
+    if tier == "thorough":
+        return FAMILIES
+    return ["ed25519", "ecdsa", FAMILIES[2 + vlib.seed() % 4]]
+
+
 def replay_file(prop, path):
     """Re-run one recorded case and print expected vs actual."""
     with open(path) as f:
@@ -64,7 +71,7 @@ def check_C04(rep, tier):
                        "for every permutation of both lists.  Non-trivial = at least one signature that must NOT "
                        "count (mislabelled, corrupted, unauthorised or duplicate) or threshold not in 1..|auth|.")
     cfg = f"MC_C04_{tier}.cfg"
-    fams = families_for(tier)
+    fams = types_for(tier)
     allow = {}
     algo = {}
     sh = Sharder("C04")
@@ -502,6 +509,27 @@ def check_C13(rep, tier):
                     hf.write(json.dumps({"ev": "observe", "id": f'{r["i"]}/{env["ITV_FAMILY"]}', "obs": obs, "pass": pas}) + "\n")
                     nobs += 1
                 rep.cov["evaluations"] += n + 1
+    # history pass: the same paths first held another content of the same shape (same sizes, same mtimes)
+    for k in range(vr.sh.n):
+        path = os.path.join(vr.sh.dir, f"in{k}.ndjson")
+        with open(path) as f:
+            rows = [json.loads(x) for x in f if x.strip()]
+        with open(path, "w") as f:
+            for r in rows:
+                r["repeat"] = 2
+                r["history"] = True
+                f.write(json.dumps(r, separators=(",", ":")) + "\n")
+    with open(hist, "a") as hf:
+        env = {"ITV_FAMILY": "ed25519"}
+        vr.sh.run(env_extra=env, per_shard_cwd=True)
+        for r in vr.sh.results():
+            vr.judge(r, env)
+            for d in r.get("distinct", []):
+                obs = "err" if d["out"] == "err" else (d["out"] + " " + (norm_sum(d.get("sum")) or "?"))
+                hf.write(json.dumps({"ev": "observe", "id": f'{r["i"]}/ed25519', "obs": obs, "pass": "history"}) + "\n")
+                nobs += 1
+            rep.cov["evaluations"] += 3
+    rep.cov["history_pass"] = True
     total, rejected, tst = validate_trace(hist, "Determinism", "Determinism.cfg", "t13", reset_ev="NONE", max_rounds=1)
     rep.cov["parts"]["history"] = {"observations": nobs, "runs_per_scenario": n, "states": tst.distinct}
     rep.cov["traces_validated_against_impl"] += nobs
@@ -773,10 +801,10 @@ def check_C09(rep, tier):
                        "from the C04 requirement on the abstract state.  Every path is executed on real objects for several key types; "
                        "additionally every bit of an ed25519 signature (a sample for ECDSA / RSA) is flipped.  Non-trivial = the path "
                        "contains a mutation or must fail.")
-    fams = FAMILIES if tier == "thorough" else families_for(tier)
+    fams = types_for(tier)
     _life(rep, tier, "C09", fams, ["Construct", "Write", "Read", "Edit", "FlipBit", "Relabel", "DropSig", "ChooseKeys", "RelabelToStar", "Verify"])
     bits = 0
-    for fam in (FAMILIES if tier == "thorough" else families_for(tier)):
+    for fam in types_for(tier):
         res = json.loads(run_itv(["record", "C09bits", "100000" if fam == "ed25519" else ("256" if tier == "quick" else "1024")],
                                  env_extra={"ITV_FAMILY": fam}))
         bits += res["bits"]
